@@ -172,7 +172,7 @@ def strip_end(e):
 # ------------------------------------------------------------------------------------ generators
 def gen_outcome(rng, p_err=0.3):
     if rng.random() < p_err:
-        return {"err": {"cls": rng.choice(["ValueError", "KeyError", "Boom", "Boom", "InvocationError"]), "msg": rng.choice(["boom", "bad", "", "b\u00e4d \u65e5\u672c (x.y)"])}}
+        return {"err": {"cls": rng.choice(["ValueError", "KeyError", "Boom", "Boom", "InvocationError"]), "msg": rng.choice(["boom", "bad", "", "bad (x.y) [z]* $1"])}}   # ASCII, nothing JSON escapes: the model measures results in characters
     return {"ok": rng.choice(TOKENS)}
 
 
